@@ -264,6 +264,11 @@ def run_history(c):
                         if op[0] == 'nested':
                             with key.unlock(pw):
                                 pass
+                            # the outer scope has not ended: the key still signs and decrypts
+                            if not key.is_unlocked:
+                                f.append(('unlock', 'outer-scope-locked-by-inner-scope', '%s: is_unlocked False after the inner scope ended' % where))
+                            for p in works_unlocked(key, pub):
+                                f.append(('unlock', 'outer-scope-locked-by-inner-scope', '%s: %s' % (where, p)))
                         if op[0] == 'unlock_raise':
                             raise Boom()
                 except Boom:
